@@ -1,0 +1,10 @@
+// Copyright 2024 The Go Authors. All rights reserved.
+// Use of this source code is governed by a BSD-style
+// license that can be found in the LICENSE file.
+
+//go:build !verif
+
+package sumdb
+
+// verifYield is a no-op unless built with the verif tag (see hook_verif.go).
+func verifYield(ops ClientOps, point string) {}
